@@ -211,6 +211,28 @@ theorem pin_moves_preserve_view (st : State) (h : Inv st) :
       view (processActions st).scene = pending st :=
   ⟨view_runPasses_genPinMoves st.scene h.connFind _, obsts_runPasses_genPinMoves _ _, view_processActions st h⟩
 
+/-- **pin_refresh_complete.** Every connector end attached to an obstacle that the transaction MOVES has an
+    update in the list the last loop of `processActions` runs over (`genPinMoves` of the sorted queue): either the
+    user's queued change of that end or the refresh appended by `moveAttachedConns`. So every end that
+    `Obstacle::makeInactive` turned into a manual point in the first loop (the transient state this model does
+    not represent) is set again by `updateEndPoint` in the last loop — and by `pin_moves_preserve_view` to the
+    right thing. (A C++ change that drops such a refresh breaks the scene tie.) -/
+theorem pin_refresh_complete (st : State) (a : Action) (ha : a ∈ st.queue) (hk : a.kind = .move)
+    (t : Nat × End × CEnd) (ht : t ∈ attachedEnds st.scene a.id) :
+    Covered (genPinMoves st.scene (sortActions st.queue)) t.1 t.2.1 :=
+  genPinMoves_covers st.scene _ a (mem_sort.2 ha) hk t ht
+
+/-- **pin_refresh_any_order.** The same for ANY sequence of pin-move updates each of which carries an end that
+    a connector of the scene currently has — any visiting order of `Obstacle::m_following_conns` (a
+    `std::set<ConnEnd *>`, i.e. heap-address order in the C++), any order of the moved obstacles, repetitions:
+    merged into ANY action list `q` they leave what the three loops show unchanged. So the address-dependent
+    order of the refresh cannot influence the result. -/
+theorem pin_refresh_any_order (st : State) (h : Inv st) (ts : List (Nat × End × CEnd)) (hts : EndsOfScene st.scene ts)
+    (q : List Action) :
+    view (runPasses st.scene (ts.foldl (fun q t => modifyConnector q t.1 t.2.1 t.2.2 true) q))
+      = view (runPasses st.scene q) :=
+  view_runPasses_refresh st.scene h.connFind ts hts q
+
 /-- **user_retarget_wins.** In every legal history: once the user has set end `e` of connector `c` to `p`
     (a free point, or a pin class of any obstacle) and does not set that same end again, then — whatever else
     the history does before and after, in the same transaction or in later ones, in either call order: moves
@@ -252,6 +274,16 @@ def pinSetup : List Op :=
     .processTransaction ]
 def pinOpsA : List Op := pinSetup ++ [ .moveAbs false 1 [⟨0, 10⟩, ⟨4, 10⟩, ⟨4, 14⟩, ⟨0, 14⟩] false, .setEndpoint 3 .src (.pin 2 1) ]
 def pinOpsB : List Op := pinSetup ++ [ .setEndpoint 3 .src (.pin 2 1), .moveAbs false 1 [⟨0, 10⟩, ⟨4, 10⟩, ⟨4, 14⟩, ⟨0, 14⟩] false ]
+
+/-- non-vacuity of `pin_refresh_any_order`: ends that the connectors of that state have, in another order, one twice -/
+example : ∀ t ∈ [((4 : Nat), End.tar, CEnd.pin 1 1), (3, .src, .pin 1 1), (4, .tar, .pin 1 1)],
+    ∃ k ∈ (run init pinOpsA).scene.conns, k.id = t.1 ∧ k.getEnd t.2.1 = some t.2.2 := by
+  decide +kernel
+
+/-- non-vacuity of `pin_refresh_complete`: the queued move of shape 1 and an end attached to it -/
+example : (∃ a ∈ (run init pinOpsA).queue, a.kind = .move ∧ a.id = 1) ∧
+    ((4 : Nat), End.tar, CEnd.pin 1 1) ∈ attachedEnds (run init pinOpsA).scene 1 := by
+  decide +kernel
 
 example : LegalHistory (pinOpsA ++ [.processTransaction]) ∧ LegalHistory (pinOpsB ++ [.processTransaction]) := by decide +kernel
 
